@@ -146,7 +146,7 @@ def c18_3(ctx):
         if not pre or key_type not in name_expr:
             raise Undecided("hparse: prefix attribute / deserializer name are not both derived from key_type in a recognisable way")
         attr_expr = pre[0][len("truthy(%s.startswith(getattr(%s, " % (D, api)):]
-        ctx.check(sym.entails(e.reach, ("op", pre[0])) and key_type in attr_expr and pub_prv in attr_expr and name_expr.startswith("'%s_deserialize' % ") and name_expr.endswith(key_type),
+        ctx.check(sym.entails(e.reach, ("op", pre[0])) and key_type in attr_expr and pub_prv in attr_expr and name_expr in ("'%%s_deserialize' %% %s" % key_type, "%s + '_deserialize'" % key_type),
                   "extended-key-prefix", ctx.where(h, e.node), "hparse does not select the prefix attribute (`%s`) and the deserializer (`%s`) of the same key type" % (attr_expr[:50], name_expr[:50]))
     from rules import C10, C08
     C10.c10_3(ctx)
